@@ -272,9 +272,19 @@ fn pow10(k: u32) -> i128 {
 
 /// A coefficient whose last `k` digits make the rounding decision
 /// interesting: `w = ±(q·10^k + r)`.
-fn rem_case(rng: &mut Rng, exact: bool) -> (i128, u8) {
-    let k = rng.range(1, 3) as u32;
-    let q = rng.range(0, 14) as i128;
+fn rem_case(rng: &mut Rng, exact: bool, kmax: u32) -> (i128, u8) {
+    // digits dropped: mostly 1-3, sometimes many
+    let k = if kmax > 3 && rng.pct(30) { rng.range(4, kmax as i64) as u32 } else { rng.range(1, 3) as u32 };
+    // retained part: mostly tiny (last digit / parity decide 05Up and
+    // HalfEven), sometimes of any magnitude up to ~10^30
+    let q = if rng.pct(70) {
+        rng.range(0, 14) as i128
+    } else {
+        let d = rng.range(2, (34 - k as i64).min(30)) as u32;
+        let lo = pow10(d - 1);
+        let x = ((rng.next_u64() as u128) << 64 | rng.next_u64() as u128) % (9 * lo) as u128;
+        lo + x as i128
+    };
     let half = 5 * pow10(k - 1);
     let r = if exact {
         0
@@ -282,9 +292,9 @@ fn rem_case(rng: &mut Rng, exact: bool) -> (i128, u8) {
         match rng.below(10) {
             0..=3 => half,                                        // tie
             4..=6 => {
-                if half > 1 { 1 + rng.below((half - 1) as u64) as i128 } else { half }
+                if half > 1 { 1 + (rng.next_u64() as i128).rem_euclid(half - 1) } else { half }
             } // below half (k=1: 1..4)
-            _ => half + 1 + rng.below((pow10(k) - half - 1) as u64) as i128, // above half
+            _ => half + 1 + (rng.next_u64() as i128).rem_euclid(pow10(k) - half - 1), // above half
         }
     };
     let mut w = q * pow10(k) + r;
@@ -339,7 +349,13 @@ pub fn gen_op(rng: &mut Rng, cfg: &Cfg, kind: usize, class: Class) -> Op {
     let exact = class == Class::Exact;
     let panicking = class == Class::Panicking;
     let wide = class == Class::Wide;
-    let (w, k) = rem_case(rng, exact);
+    let kmax = match kind {
+        0 | 1 | 2 | 19 => 17,
+        10 => 9,
+        4..=9 => 10,
+        _ => 3,
+    };
+    let (w, k) = rem_case(rng, exact, kmax);
     let k32 = k as u32;
     let sign = if rng.pct(50) { -1i128 } else { 1 };
     match kind {
@@ -689,7 +705,7 @@ pub fn gen_op(rng: &mut Rng, cfg: &Cfg, kind: usize, class: Class) -> Op {
         // Display with precision / width / flags through the SimSink seam
         19 => {
             let var = rng.below(N_FMT_VARIANTS as u64) as u8;
-            let width = rng.range(0, 14) as u8;
+            let width = if rng.pct(10) { rng.range(15, 70) as u8 } else { rng.range(0, 14) as u8 };
             let (a, p): (Dec, u8) = if wide {
                 let dig = rng.range(20, 38) as u32;
                 let s = rng.range(2, 18) as u8;
